@@ -682,7 +682,7 @@ def utc_property_obligations(rep, tier):
         lat.add("TZP", ["object"])
     eng.globals["tzp"] = E.VClass("TZP")
     utc_of = z3.Function("localize_utc", E.Ref, E.Ref)
-    eng.contracts["TZP.localize_utc"] = lambda e, s, a, k: [(s, E.VRef(utc_of(e.box(a[1], s))))]
+    eng.contracts["TZP.localize_utc"] = comp.exact_arity(lambda e, s, a, k: [(s, E.VRef(utc_of(e.box(a[1], s))))], 2, "tzp.localize_utc(dt)")
     added = []
 
     def c_add(engine, st, args, kw):
